@@ -28,6 +28,8 @@ func runC15(c *Ctx) {
 	indexResolution(c, "R4")
 	equalityAgreement(c, "R6")
 	c15NestedCalls(c)
+	c.shared("R9", "C10/R6", "the contents of an array are what was written into it: every evaluation of an array literal builds cells of its own — nothing evaluated earlier is remembered in the evaluator or the syntax tree and handed out again", keyHas("evaluator-state", "syntax-tree-store", "interpreter-state"), func(s *Ctx) { interpreterState(s, "R6") })
+	c.shared("R10", "C04/R15", "an index write changes one element: every element of a decoded array (nulls included) gets a cell of its own", keyHas("value-construction"), func(s *Ctx) { newValueTable(s, "R15") })
 	c.shared("R7", "C02/R4", "a method invoked on $ acts on the array inside the document: for an array root the pattern rules see each element's own cell, not a copy of its value (a copy carries a private slice header)", keyHas("array-root-per-element"), c02R4)
 	c.shared("R5", "C09/R3", "push stores a copy of its argument made by copyValue: the stored element is a value of the same kind in a cell of its own (a null that shares the caller's cell changes when the caller's variable does)", keyHas("copy Value", "copy-on-insert ExprCall.Args", "copy-on-insert ExprArray", "copy-flag-"), c09R3)
 }
